@@ -1120,4 +1120,312 @@ example : inputsOf (srun exST exS0 exPost) "h1" = ["loop1", "loop2"] ∧ inputsO
     selfControlledCalls (srun exST exS0 exPost) "h2" [0] 0 = [] := by
   refine ⟨?_, ?_, ?_, ?_, ?_, ?_, ?_⟩ <;> decide +kernel
 
+/-! ## status codes, struct parameters, behaviour under access to another module (round 5) -/
+
+/-- **status codes come from the own chain**: the enum `StatusType(<class>, *standard, **custom)` builds has exactly the codes
+of the class it extends and the codes given - no name, no number from anywhere else -/
+theorem status_codes_own_chain (base more : List (String × Int)) (m : String × Int) :
+    m ∈ addCodes base more ↔ m ∈ base ∨ m ∈ more := by
+  induction more generalizing base with
+  | nil => simp [addCodes]
+  | cons x rest ih =>
+    simp only [addCodes]
+    rw [ih]
+    by_cases h : x ∈ base
+    · simp only [h, if_true, List.mem_cons]
+      constructor
+      · rintro (h1 | h1)
+        · exact Or.inl h1
+        · exact Or.inr (Or.inr h1)
+      · rintro (h1 | h1 | h1)
+        · exact Or.inl h1
+        · exact Or.inl (h1 ▸ h)
+        · exact Or.inr h1
+    · simp only [h, if_false, List.mem_append, List.mem_cons, List.not_mem_nil, or_false]
+      constructor
+      · rintro ((h1 | h1) | h1)
+        · exact Or.inl h1
+        · exact Or.inr (Or.inl h1)
+        · exact Or.inr (Or.inr h1)
+      · rintro (h1 | h1 | h1)
+        · exact Or.inl (Or.inl h1)
+        · exact Or.inl (Or.inr h1)
+        · exact Or.inr h1
+
+/-- the codes of the enum inside the datatype object `statusTree` builds -/
+theorem status_tree_codes (parent more : List (String × Int)) :
+    (statusTree parent more).children.head?.map DTree.members = some (addCodes parent more) := rfl
+
+/-- **the status of a class never changes**: whatever admissible operations follow its definition (other families
+extending their status by the same numbers under other names, subclasses, instances, mutations) -/
+theorem status_of_class_stable (T : Tables) (c : Name) (ops : List Op) (w : World) (hb : Bounded w) (hs : Separated w)
+    (hrun : AdmissibleRun T w ops) (hc : w.findClass c ≠ none) :
+    statusCodesOf (run T w ops) c = statusCodesOf w c := by
+  unfold statusCodesOf
+  rw [(class_never_changes T c ops w hb hs hrun hc).1]
+
+/-- **a status declaration means the same whenever it is evaluated**: the datatype worked out for
+`StatusType(<class>, …)` after any admissible run is the one worked out before it - it depends on the class named in the
+declaration only, not on what was defined in between -/
+theorem status_elab_stable (T : Tables) (ops : List Op) (w : World) (hb : Bounded w) (hs : Separated w)
+    (hrun : AdmissibleRun T w ops) (t : DTree)
+    (hp : ∀ c, t.kind = "status?" → aget? t.props "parent" = some c → w.findClass c ≠ none) :
+    elabTree (run T w ops) t = elabTree w t := by
+  unfold elabTree
+  split
+  · next p _ more =>
+    cases hpar : aget? p "parent" with
+    | none => rfl
+    | some c =>
+      have hc := hp c rfl hpar
+      simp only [status_of_class_stable T c ops w hb hs hrun hc]
+  · rfl
+
+/-- a class body with struct parameters: every declaration keeps its place and name, the member parameters follow behind -/
+theorem expandStructs_names (decls : List (Name × (Decl ⊕ StructDecl))) :
+    (expandStructs decls).map (·.1) = decls.map (·.1) ++
+      decls.flatMap (fun nd => match nd.2 with | .inl _ => [] | .inr s => s.members.map (fun m => s.pfx ++ m.1)) := by
+  unfold expandStructs
+  rw [List.map_append]
+  congr 1
+  · rw [List.map_map]
+    apply List.map_congr_left
+    intro nd _
+    rcases nd with ⟨n, d | s⟩ <;> rfl
+  · rw [List.map_flatMap]
+    congr 1
+    funext nd
+    rcases nd with ⟨n, d | s⟩
+    · rfl
+    · simp [StructDecl.memberParams, List.map_map, Function.comp_def]
+
+open StructRW in
+theorem amod_cons {α : Type} (k0 : Name) (v : α) (rest : List (Name × α)) (k : Name) (f : α → α) :
+    amod ((k0, v) :: rest) k f = (if k0 == k then (k0, f v) else (k0, v)) :: amod rest k f := rfl
+
+open StructRW in
+theorem aget?_amod_self {α : Type} (l : List (Name × α)) (k : Name) (f : α → α) :
+    aget? (amod l k f) k = (aget? l k).map f := by
+  induction l with
+  | nil => rfl
+  | cons kv rest ih =>
+    obtain ⟨k', v⟩ := kv
+    rw [amod_cons]
+    by_cases h : k' = k
+    · subst h
+      simp [aget?]
+    · simp [aget?, h, ih]
+
+open StructRW in
+theorem aget?_amod_other {α : Type} (l : List (Name × α)) (k k' : Name) (f : α → α) (hne : k ≠ k') :
+    aget? (amod l k f) k' = aget? l k' := by
+  induction l with
+  | nil => rfl
+  | cons kv rest ih =>
+    obtain ⟨k0, v⟩ := kv
+    rw [amod_cons]
+    by_cases h : k0 = k
+    · subst h
+      simp [aget?, hne, ih]
+    · by_cases h2 : k0 = k'
+      · subst h2
+        simp [aget?, h]
+      · simp [aget?, h, h2, ih]
+
+open StructRW in
+/-- **a member update reaches its struct whatever other module is being accessed**: with one nesting counter per struct
+parameter object, what module `y` shows after `y.<m> = v` is the same inside a struct access of any other module `x` as on
+its own -/
+theorem member_update_context_free {V : Type} (w : Mods V) (x y m : Name) (v : V) (hxy : x ≠ y) :
+    aget? (memberUpdate (enter w x) y m v) y = aget? (memberUpdate w y m v) y ∧
+    aget? (leave (memberUpdate (enter w x) y m v) x) y = aget? (memberUpdate w y m v) y := by
+  unfold memberUpdate enter leave
+  rw [aget?_amod_other _ x y _ hxy, aget?_amod_self, aget?_amod_other _ x y _ hxy, aget?_amod_self]
+  exact ⟨rfl, rfl⟩
+
+open StructRW in
+/-- … and outside of an access to its own struct, the struct follows the member -/
+theorem member_update_reaches_struct {V : Type} (w : Mods V) (y m : Name) (v : V) (s : SP V)
+    (hs : aget? w y = some s) (hd : s.depth = 0) :
+    (aget? (memberUpdate w y m v) y).map (fun s' => (aget? s'.struct m, aget? s'.members m)) = some (some v, some v) := by
+  unfold memberUpdate
+  rw [aget?_amod_self, hs]
+  simp [updSP, hd, aget?_aput_self]
+
+open StructRW in
+/-- non-vacuity, and why the counter has to be per parameter object: two modules, the struct of `outer` being read; the
+update of `inner.kp` reaches `inner`'s struct - with ONE counter for all struct parameters it does not -/
+example :
+    let w : Mods Nat := [("outer", ⟨0, [("kp", 1)], [("kp", 1)]⟩), ("inner", ⟨0, [("kp", 1)], [("kp", 1)]⟩)]
+    (aget? (memberUpdate (enter w "outer") "inner" "kp" 2) "inner").map (·.struct) = some [("kp", 2)] ∧
+    (aget? (memberUpdate w "inner" "kp" 2) "inner").map (·.struct) = some [("kp", 2)] ∧
+    (aget? (memberUpdateShared (enter w "outer") "inner" "kp" 2) "inner").map (·.struct) = some [("kp", 1)] := by
+  decide +kernel
+
+/-- the monitor `contextOffenders` is sound: no offender ⇒ every action has one outcome, in whatever context it was done -/
+theorem contextOffenders_sound {α β : Type} [DecidableEq α] [DecidableEq β] (l : List (α × β))
+    (h : contextOffenders l = []) : ContextFree l := by
+  intro k b b' hb hb'
+  by_cases hne : b = b'
+  · exact hne
+  exfalso
+  have hmem : (k, b) ∈ l.filter (fun p => l.any (fun q => p.1 == q.1 && decide (q.2 ≠ p.2))) := by
+    rw [List.mem_filter]
+    refine ⟨hb, ?_⟩
+    rw [List.any_eq_true]
+    exact ⟨(k, b'), hb', by simp [Ne.symm hne]⟩
+  have : k ∈ contextOffenders l := by
+    unfold contextOffenders
+    rw [List.mem_eraseDups]
+    exact List.mem_map.2 ⟨(k, b), hmem, rfl⟩
+  rw [h] at this
+  cases this
+
+example : contextOffenders [("0:i1:ctrl.kp:assign", "[2,{kp:2}]"), ("0:i1:ctrl.kp:assign", "[2,{kp:2}]")] = [] ∧
+    contextOffenders [("0:i1:ctrl.kp:assign", "[2,{kp:2}]"), ("0:i1:ctrl.kp:assign", "[2,{kp:1}]")] = ["0:i1:ctrl.kp:assign"] := by
+  decide +kernel
+
+/-- the example for the status theorems: two families extend the status of `S` by the code 410 under different names, a
+subclass of each adds RAMPING; every status declaration is worked out in the world the class is defined in -/
+def stS : ClassDecl := ⟨"S", ["S"], true, [("status", .param (some "\"st\"") (some (statusTree [("IDLE", 100), ("ERROR", 400)] [])) [] true)]⟩
+def stDecl (n p : Name) (more : List (String × Int)) : ClassDecl :=
+  ⟨n, [n, p, "S"].eraseDups, true, [("status", .param none (some (pendingStatus (some p) more)) [] true)]⟩
+def stDefine (w : World) (d : ClassDecl) : World := step exT w (.define (elabClass w d))
+def stWorld : World :=
+  [stDecl "A1" "S" [("TRIPPED", 410)], stDecl "B1" "S" [("INTERLOCK", 410)], stDecl "A2" "A1" [("RAMPING", 370)],
+   stDecl "B2" "B1" [("RAMPING", 370)]].foldl stDefine (step exT {} (.define stS))
+
+/-- each family has its own name for 410, whichever was defined first; and (hypotheses of `status_elab_stable`) the run is
+admissible, the parent of a further declaration exists -/
+example : statusCodesOf stWorld "A2" = [("IDLE", 100), ("ERROR", 400), ("TRIPPED", 410), ("RAMPING", 370)] ∧
+    statusCodesOf stWorld "B2" = [("IDLE", 100), ("ERROR", 400), ("INTERLOCK", 410), ("RAMPING", 370)] ∧
+    (stWorld.findClass "B1").isSome = true ∧
+    (elabTree stWorld (pendingStatus (some "B1") [("BUSY", 300)])).children.head?.map DTree.members =
+      some [("IDLE", 100), ("ERROR", 400), ("INTERLOCK", 410), ("BUSY", 300)] := by
+  refine ⟨?_, ?_, ?_, ?_⟩ <;> decide +kernel
+
+/-- the hypotheses of `status_of_class_stable` / `status_elab_stable` are satisfiable: from the world with `S`, an admissible run
+defining a family on top of it and creating a module -/
+def stW0 : World := step exT {} (.define stS)
+def stOps : List Op := [.define (elabClass stW0 (stDecl "A1" "S" [("TRIPPED", 410)])), .inst "i" "A1" []]
+
+example : statusCodesOf (run exT stW0 stOps) "S" = statusCodesOf stW0 "S" ∧
+    elabTree (run exT stW0 stOps) (pendingStatus (some "S") [("INTERLOCK", 410)]) =
+      elabTree stW0 (pendingStatus (some "S") [("INTERLOCK", 410)]) := by
+  have h0 := separated_preserved exT {} (.define stS) rfl empty_world_ok.1 empty_world_ok.2
+  have hrun : AdmissibleRun exT stW0 stOps := by
+    refine ⟨?_, ?_, trivial⟩ <;> exact Option.isNone_iff_eq_none.1 (by decide +kernel)
+  have hc : stW0.findClass "S" ≠ none := by
+    intro h
+    have : (stW0.findClass "S").isSome = true := by decide +kernel
+    rw [h] at this
+    cases this
+  refine ⟨status_of_class_stable exT "S" stOps stW0 h0.1 h0.2 hrun hc,
+    status_elab_stable exT stOps stW0 h0.1 h0.2 hrun _ (fun c _ hp => ?_)⟩
+  have : c = "S" := by
+    have : aget? (pendingStatus (some "S") [("INTERLOCK", 410)]).props "parent" = some "S" := by decide +kernel
+    rw [this] at hp
+    exact (Option.some.inj hp).symm
+  rw [this]
+  exact hc
+
+/-- **what a status declaration means does not depend on the definition order**: in any two programs that define their
+classes with the same (elaborated) bodies, each in an order consistent with inheritance, whatever else they do, a declaration
+`StatusType(<c>, …)` written after them is worked out to the same datatype - the codes of `c` are the same in both (`c` may have
+been defined before or after any other family using the same numbers under other names) -/
+theorem status_elab_order_independent (T : Tables) (env : Name → Option ClassDecl) (ops1 ops2 : List Op)
+    (ha1 : AdmissibleRun T {} ops1) (hc1 : ConsistentRun T env {} ops1)
+    (ha2 : AdmissibleRun T {} ops2) (hc2 : ConsistentRun T env {} ops2) (t : DTree)
+    (hp : ∀ c, t.kind = "status?" → aget? t.props "parent" = some c →
+      (run T {} ops1).findClass c ≠ none ∧ (run T {} ops2).findClass c ≠ none) :
+    elabTree (run T {} ops1) t = elabTree (run T {} ops2) t := by
+  unfold elabTree
+  split
+  · next p _ more =>
+    cases hpar : aget? p "parent" with
+    | none => rfl
+    | some c =>
+      obtain ⟨h1, h2⟩ := hp c rfl hpar
+      simp only [statusCodesOf, order_independent T env ops1 ops2 ha1 hc1 ha2 hc2 c h1 h2]
+  · rfl
+
+/-- … and the monitor is complete: one outcome per action ⇒ no offender -/
+theorem contextOffenders_complete {α β : Type} [DecidableEq α] [DecidableEq β] (l : List (α × β))
+    (h : ContextFree l) : contextOffenders l = [] := by
+  unfold contextOffenders
+  have hf : l.filter (fun p => l.any (fun q => p.1 == q.1 && decide (q.2 ≠ p.2))) = [] := by
+    rw [List.filter_eq_nil_iff]
+    intro p hp hany
+    rw [List.any_eq_true] at hany
+    obtain ⟨q, hq, hcond⟩ := hany
+    simp only [Bool.and_eq_true, beq_iff_eq, decide_eq_true_eq] at hcond
+    obtain ⟨hk, hne⟩ := hcond
+    have hq' : (p.1, q.2) ∈ l := by rw [hk]; exact hq
+    exact hne (h p.1 q.2 p.2 hq' hp)
+  rw [hf]
+  rfl
+
+/-- the two families of the example, their status worked out on top of `S`, defined in either order -/
+def stA : ClassDecl := ⟨"A1", ["A1", "S"], true, [("status", .param none (some (statusTree [("IDLE", 100), ("ERROR", 400)] [("TRIPPED", 410)])) [] true)]⟩
+def stB : ClassDecl := ⟨"B1", ["B1", "S"], true, [("status", .param none (some (statusTree [("IDLE", 100), ("ERROR", 400)] [("INTERLOCK", 410)])) [] true)]⟩
+def stEnv (n : Name) : Option ClassDecl :=
+  if n = "S" then some stS else if n = "A1" then some stA else if n = "B1" then some stB else none
+def stOps1 : List Op := [.define stS, .define stA, .define stB]
+def stOps2 : List Op := [.define stS, .define stB, .define stA]
+
+/-- the hypotheses of `status_elab_order_independent` are satisfiable (both orders admissible and consistent, the class named
+in the declaration defined by both), and what it gives on the concrete worlds: a subclass of `B1` adding RAMPING gets
+INTERLOCK - never TRIPPED - in either order -/
+example : elabTree (run exT {} stOps1) (pendingStatus (some "B1") [("RAMPING", 370)]) =
+      elabTree (run exT {} stOps2) (pendingStatus (some "B1") [("RAMPING", 370)]) ∧
+    (elabTree (run exT {} stOps1) (pendingStatus (some "B1") [("RAMPING", 370)])).children.head?.map DTree.members =
+      some [("IDLE", 100), ("ERROR", 400), ("INTERLOCK", 410), ("RAMPING", 370)] := by
+  have ha1 : AdmissibleRun exT {} stOps1 := by
+    refine ⟨rfl, ?_, ?_, trivial⟩ <;> exact Option.isNone_iff_eq_none.1 (by decide +kernel)
+  have ha2 : AdmissibleRun exT {} stOps2 := by
+    refine ⟨rfl, ?_, ?_, trivial⟩ <;> exact Option.isNone_iff_eq_none.1 (by decide +kernel)
+  have hS : ∀ ops : List Op, ((run exT {} ops).findClass "S").isSome = true → (run exT {} ops).findClass "S" ≠ none := by
+    intro ops h h'
+    rw [h'] at h
+    cases h
+  have hc1 : ConsistentRun exT stEnv {} stOps1 := by
+    refine ⟨⟨by simp [stEnv, stS], fun m hm => ?_⟩, ⟨by simp [stEnv, stA], fun m hm => ?_⟩,
+      ⟨by simp [stEnv, stB], fun m hm => ?_⟩, trivial⟩
+    · simp [stS] at hm
+    · simp only [stA, List.tail_cons, List.mem_singleton] at hm
+      subst hm
+      intro _
+      exact hS (stOps1.take 1) (by decide +kernel)
+    · simp only [stB, List.tail_cons, List.mem_singleton] at hm
+      subst hm
+      intro _
+      exact hS (stOps1.take 2) (by decide +kernel)
+  have hc2 : ConsistentRun exT stEnv {} stOps2 := by
+    refine ⟨⟨by simp [stEnv, stS], fun m hm => ?_⟩, ⟨by simp [stEnv, stB], fun m hm => ?_⟩,
+      ⟨by simp [stEnv, stA], fun m hm => ?_⟩, trivial⟩
+    · simp [stS] at hm
+    · simp only [stB, List.tail_cons, List.mem_singleton] at hm
+      subst hm
+      intro _
+      exact hS (stOps2.take 1) (by decide +kernel)
+    · simp only [stA, List.tail_cons, List.mem_singleton] at hm
+      subst hm
+      intro _
+      exact hS (stOps2.take 2) (by decide +kernel)
+  refine ⟨status_elab_order_independent exT stEnv stOps1 stOps2 ha1 hc1 ha2 hc2 _ (fun c _ hp => ?_), by decide +kernel⟩
+  have hcB : c = "B1" := by
+    have : aget? (pendingStatus (some "B1") [("RAMPING", 370)]).props "parent" = some "B1" := by decide +kernel
+    rw [this] at hp
+    exact (Option.some.inj hp).symm
+  subst hcB
+  constructor
+  · intro h
+    have : ((run exT {} stOps1).findClass "B1").isSome = true := by decide +kernel
+    rw [h] at this
+    cases this
+  · intro h
+    have : ((run exT {} stOps2).findClass "B1").isSome = true := by decide +kernel
+    rw [h] at this
+    cases this
+
 end Frappy.Props.C09
